@@ -45,7 +45,9 @@ def cases(draw, transports):
             'after': draw(st.lists(st.sampled_from(['expect', 'expect_exact', 'read', 'readline', 'expect_eof']), min_size=3, max_size=3)),
             # all the peer does happens right after the reader's k-th system call (between two specific calls of
             # read_nonblocking: poll, read, liveness check, timed wait) instead of at times
-            'pin': draw(st.sampled_from([None, None, 1, 2, 3, 4, 5, 6, 8]))}
+            'pin': draw(st.sampled_from([None, None, 1, 2, 3, 4, 5, 6, 8])),
+            # unicode mode: the stream is cut off inside a multi-byte character (its first byte is the last thing written)
+            'dangling': draw(st.integers(0, 3)) == 0}
 
 
 def conv(s, text_mode):
@@ -138,6 +140,9 @@ def check_sim(case, col=None):
     t = 0.0
     for i in range(0, len(data), step):
         acts.append({'t': t, 'op': 'write', 'data': data[i:i + step]})
+        t += 0.01
+    if case.get('dangling') and text_mode and case['ending'] != 'silence':
+        acts.append({'t': t, 'op': 'write', 'data': b'\xc3'})
         t += 0.01
     if case['ending'] == 'eof':
         if case['kind'] == 'pty':
